@@ -277,7 +277,7 @@ func c02Subsets(def *refcodec.Msg, thorough bool, fn func(mask uint64)) {
 		if i+1 < n {
 			fn(3 << uint(i))
 		}
-		fn((1<<uint(n) - 1) &^ (1<<uint(i+1) - 1) | 1<<uint(i))
+		fn((1<<uint(n)-1)&^(1<<uint(i+1)-1) | 1<<uint(i))
 		fn((1<<uint(n) - 1) &^ (1 << uint(i)))
 	}
 }
